@@ -42,6 +42,7 @@ def build():
     # syntax_node.rs: SyntaxTreeBuilder hands the token texts to rowan's GreenNodeBuilder verbatim (C02) and records parser
     # diagnostics at the offset it is given (C12)
     U.file('crates/oq3_parser/src/syntax_kind/syntax_kind_enum.rs').item('enum', 'SyntaxKind')
+    U.file('crates/oq3_parser/src/syntax_kind.rs').impl('SyntaxKind', [('is_trivia', dict(ret='r', props=P, spec='ensures r == (self is WHITESPACE || self is COMMENT),'))])
     U.raw('''pub mod rowan_green {
     use vstd::prelude::*;
     use super::GreenNode;
